@@ -41,3 +41,15 @@ package atree
 //@   ensures err != nil && categorised(err) ==> r == err
 //@   ensures err != nil && !categorised(err) ==> isExternal(r) && fresh(r)
 //@   modifies alloc
+
+//@ func NewUserError(err) (r)  serves C18
+//@   ensures r != nil && isUser(r) && fresh(r)
+//@   modifies alloc
+
+//@ func NewFatalError(err) (r)  serves C18
+//@   ensures r != nil && isFatal(r) && fresh(r)
+//@   modifies alloc
+
+//@ func NewExternalError(err, msg) (r)  serves C18
+//@   ensures r != nil && isExternal(r) && fresh(r)
+//@   modifies alloc
